@@ -471,6 +471,25 @@ struct scram_user_data {
     const struct hash_alg *alg;
 };
 
+static void _scram_ctx_free(xmpp_conn_t *conn,
+                            struct scram_user_data *scram_ctx)
+{
+    if (!scram_ctx)
+        return;
+    if (conn->scram_ctx == scram_ctx)
+        conn->scram_ctx = NULL;
+    strophe_free(conn->ctx, scram_ctx->channel_binding);
+    strophe_free(conn->ctx, scram_ctx->scram_init);
+    strophe_free(conn->ctx, scram_ctx);
+}
+
+/* the SCRAM handler is dropped together with the other system handlers when
+ * the connection is reset; its userdata has to go with it */
+void auth_scram_reset(xmpp_conn_t *conn)
+{
+    _scram_ctx_free(conn, (struct scram_user_data *)conn->scram_ctx);
+}
+
 /* handle the challenge phase of SCRAM-SHA-1 auth */
 static int _handle_scram_challenge(xmpp_conn_t *conn,
                                    xmpp_stanza_t *stanza,
@@ -535,9 +554,7 @@ static int _handle_scram_challenge(xmpp_conn_t *conn,
          */
         rc = _handle_sasl_result(conn, stanza,
                                  (void *)scram_ctx->alg->scram_name);
-        strophe_free_and_null(conn->ctx, scram_ctx->channel_binding);
-        strophe_free_and_null(conn->ctx, scram_ctx->scram_init);
-        strophe_free(conn->ctx, scram_ctx);
+        _scram_ctx_free(conn, scram_ctx);
     }
 
     return rc;
@@ -547,9 +564,7 @@ err_release_auth:
 err_free_response:
     strophe_free(conn->ctx, response);
 err:
-    strophe_free_and_null(conn->ctx, scram_ctx->channel_binding);
-    strophe_free_and_null(conn->ctx, scram_ctx->scram_init);
-    strophe_free(conn->ctx, scram_ctx);
+    _scram_ctx_free(conn, scram_ctx);
     disconnect_mem_error(conn);
     return 0;
 }
@@ -881,6 +896,7 @@ static void _auth(xmpp_conn_t *conn)
 
         handler_add(conn, _handle_scram_challenge, XMPP_NS_SASL, NULL, NULL,
                     (void *)scram_ctx);
+        conn->scram_ctx = scram_ctx;
 
         send_stanza(conn, auth, XMPP_QUEUE_STROPHE);
 
